@@ -7,6 +7,7 @@
    get_range, seek).  Model: model/Verify.v and the verifying reader model. *)
 open Common
 open Mtbl_model
+type string = Stdlib.String.t
 open Gen
 
 let engine = "c12"
